@@ -1,0 +1,69 @@
+//go:build verif
+
+package goverter
+
+import (
+	"fmt"
+
+	"github.com/jmattheis/goverter/comments"
+	"github.com/jmattheis/goverter/config"
+	"github.com/jmattheis/goverter/generator"
+)
+
+// EachResult is the outcome of generating one converter on its own.
+type EachResult struct {
+	Name    string
+	Package string
+	File    string
+	Conv    *config.Converter
+	Files   map[string][]byte
+	Err     error
+	Panic   any
+}
+
+// GenerateEachVerif loads the packages once and then parses and generates every converter separately.
+func GenerateEachVerif(c *GenerateConfig) ([]EachResult, error) {
+	rawConverters, err := comments.ParseDocs(comments.ParseDocsConfig{
+		BuildTags: c.BuildTags, PackagePattern: c.PackagePatterns, WorkingDir: c.WorkingDir,
+	})
+	if err != nil {
+		return nil, err
+	}
+	convs, errs, err := config.ParseEachVerif(&config.Raw{
+		BuildTags: c.BuildTags, WorkDir: c.WorkingDir, Converters: rawConverters, Global: c.Global,
+		OuputBuildConstraint: c.OutputBuildConstraint, EnumTransformers: c.EnumTransformers,
+	})
+	if err != nil {
+		return nil, err
+	}
+	res := make([]EachResult, len(convs))
+	for i := range convs {
+		res[i].Name = rawConverters[i].InterfaceName
+		res[i].Package = rawConverters[i].PackagePath
+		res[i].File = rawConverters[i].FileName
+		res[i].Conv = convs[i]
+		if errs[i] != nil {
+			if p, ok := errs[i].(*config.PanicVerif); ok {
+				res[i].Panic = fmt.Sprint(p.Value)
+			} else {
+				res[i].Err = errs[i]
+			}
+			continue
+		}
+		func() {
+			defer func() {
+				if r := recover(); r != nil {
+					res[i].Panic = fmt.Sprint(r)
+				}
+			}()
+			res[i].Files, res[i].Err = generator.Generate([]*config.Converter{convs[i]}, generator.Config{BuildConstraint: c.OutputBuildConstraint})
+		}()
+	}
+	return res, nil
+}
+
+// GenerateRawVerif runs the normal pipeline without writing files.
+func GenerateRawVerif(c *GenerateConfig) (map[string][]byte, error) { return generateConvertersRaw(c) }
+
+// WriteFilesVerif writes files exactly like GenerateConverters does.
+func WriteFilesVerif(files map[string][]byte) error { return writeFiles(files) }
